@@ -74,6 +74,15 @@ def handmade(minor):
     l = copy.deepcopy(b); l['cells'].insert(0, _code(minor, 'x = 1\ny = 2\nz = 3\nprint(x)\n', 1, outputs=[so], ec=1))
     r = copy.deepcopy(b); r['cells'].insert(0, _code(minor, 'x = 1\ny = 2\nz = 3\nprint(y)\n', 2, outputs=[dict(so, text='2\n')], ec=2))
     out.append(('insert_insert_similar_ran', b, l, r))
+    # similar concurrent inserts of markdown cells whose attachments differ / exist on one side only
+    for nm, la, ra in (('differ', {'a.png': {'image/png': 'AAAA'}, 's.png': {'image/png': 'SSSS'}}, {'a.png': {'image/png': 'BBBB'}, 's.png': {'image/png': 'SSSS'}}),
+                       ('oneside', None, {'a.png': {'image/png': 'BBBB'}}), ('otherside', {'a.png': {'image/png': 'AAAA'}}, None)):
+        lc = _md(minor, '# Title\nline two\nline three\nlocal\n', 1); rc = _md(minor, '# Title\nline two\nline three\nremote\n', 2)
+        if la is not None: lc['attachments'] = la
+        if ra is not None: rc['attachments'] = ra
+        l = copy.deepcopy(b); l['cells'].insert(0, lc)
+        r = copy.deepcopy(b); r['cells'].insert(0, rc)
+        out.append(('insert_insert_similar_attachments_' + nm, b, l, r))
     # both sides make the "same" change up to the JSON number type (agreement under Python ==)
     ba = _nb(minor, [_code(minor, 'x\n', 0, metadata={'k': 0, 'f': False})], md={'k': 0})
     l = copy.deepcopy(ba); l['cells'][0]['metadata'].update({'k': 1, 'f': 1}); l['metadata']['k'] = 1
@@ -113,6 +122,11 @@ def handmade(minor):
     l = copy.deepcopy(b5); l['cells'][0]['attachments']['image.png']['image/png'] = 'BBBB'
     r = copy.deepcopy(b5); r['cells'][0]['attachments']['image.png']['image/png'] = 'CCCC'
     out.append(('attachment_attachment', b5, l, r))
+    # the same attachment name added on both sides with different content
+    b5b = _nb(minor, [_md(minor, 'text\n', 0, attachments={'other.png': {'image/png': 'OOOO'}})])
+    l = copy.deepcopy(b5b); l['cells'][0]['attachments']['image.png'] = {'image/png': 'BBBB'}
+    r = copy.deepcopy(b5b); r['cells'][0]['attachments']['image.png'] = {'image/png': 'CCCC'}
+    out.append(('attachment_added_both', b5b, l, r))
     # delete vs edit
     b6 = _nb(minor, [_code(minor, 'keep\n', 0), _code(minor, 'victim = 1\n', 1)])
     l = copy.deepcopy(b6); del l['cells'][1]
@@ -246,4 +260,4 @@ def gen_triples(r, n, repo, minors_mix=0.15):
         if minor < 5 and r.random() < minors_mix:
             b, l, rm = vary_minors(r, b, l, rm); name += '+minors%d%d%d' % (b['nbformat_minor'], l['nbformat_minor'], rm['nbformat_minor'])
         out.append((name, b, l, rm)); i += 1
-    return out[:max(n, 80)]
+    return out[:max(n, 110)]
